@@ -252,19 +252,20 @@ def conc(case):
 def jobs(tier, seed):
     q = tier == "quick"
     base = dict(R=3 if q else 4, L=3 if q else 4)
-    out = [dict(base, op="cumsum"), dict(base, op="cumsum", via="np"), dict(base, op="acc_add"), dict(base, op="acc_subtract"),
-           dict(base, op="acc_bitwise_xor"), dict(base, op="sort"), dict(base, op="sort", via="np"),
+    scan = dict(base) if q else dict(base, L=3)          # scans: the offset arithmetic over 16 cells exceeds the per-query solver budget
+    out = [dict(scan, op="cumsum"), dict(scan, op="cumsum", via="np"), dict(scan, op="acc_add"), dict(scan, op="acc_subtract"),
+           dict(scan, op="acc_bitwise_xor"), dict(base, op="sort"), dict(base, op="sort", via="np"),
            dict(base, op="unique", R=3, L=3), dict(base, op="unique_counts", R=3, L=3),
            dict(base, op="diff", n=1), dict(base, op="diff", n=1, via="np"), dict(base, op="diff", n=2), dict(base, op="diff", n=3, L=4)]
     for op in ("sort", "unique", "unique_counts"):
         out.append(dict(base, op=op, dtype="float16", R=2, L=3))
     for idt in ("uint8", "int32", "int8"):
-        out.append(dict(base, op="cumsum", idt=idt, R=2 if q else 3, L=3))
-    out.append(dict(base, op="cumsum", idt="uint64", small=True))
+        out.append(dict(base, op="cumsum", idt=idt, R=2, L=3))
+    out.append(dict(scan, op="cumsum", idt="uint64", small=True))
     for via in ("np", "method"):
         for idt in ("int8", "uint8"):
             out.append(dict(base, op="cumsum", idt=idt, cdtype=idt, via=via, R=2, L=3))
-    out.append(dict(base, op="acc_add", idt="uint64", small=True))
+    out.append(dict(scan, op="acc_add", idt="uint64", small=True))
     out.append(dict(base, op="acc_add", idt="bool", R=3, L=3))
     if not q:
         out.append(dict(base, op="cumsum", idt="uint64", R=2, L=2))      # full 64-bit range, wrapping
